@@ -3,6 +3,7 @@
 pub mod canon;
 pub mod cases;
 pub mod fil;
+pub mod genil;
 pub mod rng;
 pub mod sx;
 
